@@ -19,6 +19,7 @@ std::shared_ptr<OutputStream> ApplicationTools::warning(new StdOut());
 time_t ApplicationTools::startTime;
 size_t ApplicationTools::terminalWidth = 80;
 float ApplicationTools::terminalSplit = 0.5;
+constexpr double ApplicationTools::MAX_RANGE_LENGTH;
 bool ApplicationTools::interactive = true;
 int ApplicationTools::warningLevel = 0;
 
